@@ -440,4 +440,31 @@ def directed_polarity(root, fl):
                 if ss and ss["file"] == sp["file"] and (sp["line"], sp["col"]) <= (ss["line"], ss["col"]) and (ss["eline"], ss["ecol"]) <= (sp["eline"], sp["ecol"]):
                     v = cands[0].const_int()
                     out[lit] = bool(v)
+    # the same decision written with `==`: `if v == "undirected" { false } else if v == "directed" { true }` -- a
+    # constant that flows into `directed` and is control-dependent on eq(_, "literal") being true
+    from props.c01 import controlling_atoms as _ca
+
+    def _lit(d_):
+        if isinstance(d_, tuple) and d_[0] == "const" and '"' in d_[1]:
+            return d_[1].split('"')[1]
+        if isinstance(d_, tuple) and d_[0] == "adt" and len(d_) > 2 and len(d_[2]) == 1:
+            return _lit(d_[2][0])
+        return None
+
+    for s_ in root.stmts():
+        if s_.k != "assign" or s_.lhs.proj or s_.rv is None:
+            continue
+        cands = []
+        if s_.lhs.local in dl and s_.rv.k == "use" and s_.rv.ops[0].is_const():
+            cands = [s_.rv.ops[0]]
+        elif ("L", s_.lhs.local) in dflow and s_.rv.k in ("aggr", "use"):
+            cands = [o for o in s_.rv.ops if o.is_const() and (o.c or {}).get("ty") == "bool"]
+        if len(cands) != 1 or cands[0].const_int() not in (0, 1):
+            continue
+        for (te, v, a) in _ca(fl, s_.bb):
+            if v is True and isinstance(te, tuple) and te[0] == "call" and te[1].split("::")[-1] == "eq":
+                lits = [x for x in (_lit(panic.norm(y)) for y in te[2]) if x]
+                for lit in lits:
+                    if lit in ("directed", "undirected") and lit not in out:
+                        out[lit] = bool(cands[0].const_int())
     return out or None
